@@ -2,15 +2,16 @@ SPECIFICATION Spec
 CONSTANTS
   Isas = {"x64"}
   MaxBlocks = 2
-  Templates = {"o23", "jmp", "jcc", "ret", "ijmp"}
+  Templates = {"o23", "jmp", "jcc", "ret"}
   Layouts = {"one", "split1", "tail", "head"}
   FnTables = {"present"}
-  Names = {"fa", "fab", "xfa", "main", "g"}
-  BothOrders = TRUE
+  Names = {"fa", "fab", "xfa", "main"}
+  BothOrders = FALSE
   EntModes = {"first", "all"}
   EpChoices = {0, 1, 2}
   CfgModes = {"full"}
-  TgtChoices = {0, 1, 2}
+  AddrModes = {TRUE}
+  TgtChoices = {0, 2}
   ScopeKinds = {"allfuncs", "allblocks"}
   Positions = {"ENTRY", "EXIT", "ANYWHERE"}
   FPositions = {"ENTRY", "EXIT"}
